@@ -215,6 +215,10 @@ def run_sim_class(chk, cls, scs, mons, variant=None, batch=250, tag=None):
             sc["reuse_commands"] = True
         if "fresh_controllers" not in sc and k % 2 == 0:
             sc["fresh_controllers"] = True     # a new CommunicationController object for every range request
+        if "build_twice" not in sc and k % 6 == 4:
+            sc["build_twice"] = True           # builder.build() called twice, the second simulator is the one that runs
+        if "poll_done" not in sc and k % 4 == 1:
+            sc["poll_done"] = True             # is_simulation_done() asked before the run and between steps
         if "odd_names" not in sc and k % 5 == 3:
             sc["odd_names"] = True             # timer names containing pattern characters ("slot[1]", "s*", "done?")
         if "truthy_preds" not in sc and k % 2 == 1:
@@ -273,7 +277,7 @@ def run_sim_class(chk, cls, scs, mons, variant=None, batch=250, tag=None):
 
 def _brief(sc):
     d = {k: sc[k] for k in ("handlers", "nodes", "med", "mob", "asserts", "seed", "dur", "maxit", "drv", "script")}
-    for k in ("reuse_commands", "fresh_controllers", "odd_names", "truthy_preds", "variant", "stream"):
+    for k in ("reuse_commands", "fresh_controllers", "odd_names", "truthy_preds", "build_twice", "poll_done", "variant", "stream"):
         if k in sc:
             d[k] = sc[k]
     return d
@@ -1342,8 +1346,10 @@ def gen_mission_case(R, maxops=14):
                 p = w
             elif y < 0.65:
                 p = (w[0] + tol, w[1], w[2])                  # exactly on the tolerance boundary
-            elif y < 0.8:
+            elif y < 0.78:
                 p = (w[0] + tol * 0.5, w[1] - tol * 0.5, w[2])
+            elif y < 0.88:
+                p = (w[0] + tol * 0.7, w[1] - tol * 0.7, w[2] + tol * 0.7)   # within the tolerance per coordinate, not as a point
             else:
                 p = (w[0] + tol * 1.5, w[1] + 3.0, w[2])
             ops.append(("telem", p))
@@ -1427,8 +1433,11 @@ def gen_trip_case(R, scripted=False, maxops=14):
                 p = base
             elif y < 0.6:
                 p = (base[0] + tol, base[1], base[2])
-            elif y < 0.75:
+            elif y < 0.72:
                 p = (base[0] + tol * 0.4, base[1] - tol * 0.4, base[2])
+            elif y < 0.84:
+                # every coordinate within the tolerance, the point itself (0.7 * sqrt 3 tolerances away) not
+                p = (base[0] + tol * 0.7, base[1] - tol * 0.7, base[2] + tol * 0.7)
             else:
                 p = (base[0] + 3 * tol, base[1] + 7.0, base[2])
             ops[i] = (op[0], p)
@@ -1576,7 +1585,7 @@ def gen_interop_case(R, with_cancel=False):
     for cb in cbs:
         if R.random() < 0.3:
             cb["tracks"] = [(R.randrange(5), R.randrange(100)) for _ in range(R.randint(1, 3))]
-    return {"nid": nid, "ty": R.choice([0, 1, 2]), "rules": rules, "cbs": cbs}
+    return {"nid": nid, "ty": R.choice([0, 1, 2]), "rules": rules, "cbs": cbs, "id_first": R.random() < 0.5}
 
 
 def check_C14(chk, R, S):
